@@ -294,6 +294,43 @@ class Builder:
         return type(got) is type(want) and got == want
 
 
+_DEPTH = {}
+
+
+def container_depth(b, cls, path=()):
+    """Longest chain of nested containers below cls (0 = no grouped attribute)."""
+    if cls in _DEPTH:
+        return _DEPTH[cls]
+    if cls in path:
+        return 0
+    best = 0
+    for d in defs_of(cls):
+        if d.type_class is not None and b.usable(d) == "grouped":
+            best = max(best, 1 + container_depth(b, d.type_class, path + (cls,)))
+    _DEPTH[cls] = best
+    return best
+
+
+def deep_chain_spec(b, cls, seen=()):
+    """One path along the deepest chain of nested containers, every scalar attribute set at its end (and one on the way down)."""
+    best = None
+    for d in defs_of(cls):
+        if d.type_class is not None and b.usable(d) == "grouped" and d.type_class not in seen:
+            k = container_depth(b, d.type_class)
+            if best is None or k > best[0]:
+                best = (k, d)
+    if best is None:
+        return b.full_spec(cls, 0, 1)
+    k, d = best
+    sub = deep_chain_spec(b, d.type_class, seen + (cls,))
+    spec = {d.attr_name: ("cl", [sub]) if b.is_list(cls, d.attr_name) else ("c", sub)}
+    for x in defs_of(cls):
+        if x.type_class is None and b.usable(x) not in (None, "grouped") and x.attr_name not in spec and not b.is_list(cls, x.attr_name):
+            spec[x.attr_name] = b.spec_for(cls, x, 0, 1, 1)
+            break
+    return spec
+
+
 def default_spec(b, cls):
     """Attributes the class fills in by itself on creation (judged as set with that value)."""
     spec = {}
@@ -437,6 +474,9 @@ def work_class(args):
                             sub["+extras"] = ("x", list(ex[k:]) + [rc.u32(9_000_090 + k, k, 0, 0)])
                     sp = ("cl", subs)
                 cases.append((f"nested-extras{rnd}:{d.attr_name}", {d.attr_name: sp}, ()))
+    # the deepest chain of nested containers the class offers (up to 8 levels in the charging commands), one path, values at its end
+    if is_message and container_depth(b, cls) >= 4:
+        cases.append((f"deepest-container-chain:{container_depth(b, cls)}-levels", deep_chain_spec(b, cls), ()))
     if defs:
         for j in sorted({0, len(defs) // 2, len(defs) - 1}):
             s = dict(alls)
